@@ -2,7 +2,7 @@
 
 ASSUME = [
     "SQLite 3.40 atomic commit: a transaction (BEGIN..COMMIT, or one statement in autocommit mode) is on disk completely after COMMIT and not at all before; a rollback journal next to a file counts as part of that file (hot-journal rollback on the next open)",
-    "POSIX rename() replaces the directory entry atomically; tempfile.mkstemp returns a name not in use; shutil.copy writes a byte-identical copy (a crash *inside* copy/rename/mkstemp/connect is not enumerated: crash points are before and after each call)",
+    "POSIX rename() replaces the directory entry atomically; tempfile.mkstemp returns a name not in use; shutil.copy is NOT atomic: model and harness split it into copy-create (destination created/truncated, 0 bytes), copy-partial (a strict prefix -- half -- of the bytes on disk: a truncated SQLite file) and copy (complete: byte-identical, mode bits as shutil.copy); other prefix lengths are not enumerated (every strict prefix of a database SQLite rejects is the same model state Junk; a cut inside the last page that SQLite still accepts is not modelled); a crash *inside* rename/mkstemp/connect is not enumerated: crash points are before and after each call",
     "Python sqlite3 (legacy isolation_level): execute() of INSERT opens a transaction first, commit() without open transaction does nothing, executescript() commits a pending transaction and then runs the statements with no transaction control of its own (re-observed on every run through the trace callback: the operation sequence of the real run must equal the model's step labels)",
     "what is a database / not a database is decided by SQLite (Junk = first schema read fails; a 0- or 1-byte file is an empty database; a truncation inside the last page can still be a database); version rows are integers",
     "the payload (rows of all tables but `version`) is abstract in the model: CREATE TABLE/INDEX and DELETE/INSERT on `version` do not touch it (re-observed: full row dumps before/after)",
@@ -14,7 +14,7 @@ ASSUME = [
 TRUSTED = [
     "Coq 8.16.1 kernel (coqc, full .vo; vm_compute for the instance obligations Inst_Schemas.v / Inst_Upgrade.v, the non-vacuity examples and harness cases.v; no native_compute, no extraction on this path)",
     "harness/gen_instances.py: db-schemas/*.sql -> gen/GenSchemas.v (statement classifier, fail-closed), database.py target versions -> gen/GenParams.v",
-    "harness/dbfiles.py: fork + os._exit(9) crash injection, interception of os.path.exists/mkstemp/os.close/sqlite3.connect/Connection.close/os.rename/shutil.copy and the sqlite3 trace callback, abstraction of a directory (plain sqlite3 reader on a private copy), comparison with the model's printed prediction",
+    "harness/dbfiles.py: fork + os._exit(9) crash injection, interception of os.path.exists/mkstemp/os.close/sqlite3.connect/Connection.close/os.rename/shutil.copy (replaced in the child by a staged copy: truncate -- write half -- real shutil.copy, a kill point before and after each stage) and the sqlite3 trace callback, abstraction of a directory (plain sqlite3 reader on a private copy), comparison with the model's printed prediction",
 ]
 
 RULE = ("a case is one (entry point, pre-existing directory content, crash point k): the real entry point runs in a forked child "
@@ -22,7 +22,7 @@ RULE = ("a case is one (entry point, pre-existing directory content, crash point
         "and the next normal start is run and read (thorough tier additionally kills that restart at each of ITS points and "
         "starts a third time: second-level crash points).  evaluations = crash points executed; distinct_nontrivial = all "
         "second-level crash points plus the first-level crash points "
-        "at which the directory differed from the initial one (a temp file, a partial or complete database, a backup, an "
+        "at which the directory differed from the initial one (a temp file, a partial or complete database, an empty, truncated or complete backup, an "
         "upgraded file) or, for scenarios that must not write at all (rejects, refusals, open-only, open of a current "
         "database), the crash points after the file has been opened plus the end of the call (bytes are compared there)")
 
@@ -45,12 +45,17 @@ C20 = dict(
     engine="dbfiles", coq=["theories/Prop_C20.v"], full=True, rule=RULE, assumptions=ASSUME, trusted=TRUSTED,
     explanation=(
         "Machine-checked theorems (Prop_C20.v; proofs DbFilesFacts.v) about the same model of database.py: "
+        "C20_backup_identical (after a completed run the file at the backup path equals the old main file), "
+        "C20_upgrade_crash_states / C20_copy_crash_retry / C20_partial_backup_overwritten (the backup copy is three atomic "
+        "steps -- created empty, truncated prefix, complete; a crash inside it leaves dbfile untouched; ANY pre-existing "
+        "content at the backup path -- empty, truncated, stale -- is overwritten: outcome and final file system equal those "
+        "of the start without a file there), "
         "C20_upgrade_result (from any old-version usage database -- objects of the old schema, first version row = old "
         "version, ANY payload, any other files around -- an uninterrupted start returns a database with exactly the target "
         "version row, the objects of a freshly created database as a set of (kind, name, DDL), the old payload, and leaves "
         "the old file at the backup path) and C20_upgrade_crash_safe (after a crash behind any atomic step dbfile holds a "
         "database with the old payload, and a normal restart ends with exactly the outcome and file system of the "
-        "uninterrupted run), for every script tuple satisfying the decidable upgrade_ok (upgrader = ONE BEGIN..COMMIT group, "
+        "uninterrupted run; the crash points include the two inside the backup copy), for every script tuple satisfying the decidable upgrade_ok (upgrader = ONE BEGIN..COMMIT group, "
         "creates only unused names, rewrites `version` to exactly the target, old objects + created = fresh objects); "
         "Inst_Upgrade.v proves upgrade_ok for the scripts regenerated from /repo by vm_compute (false before the D13 repair: "
         "DbFilesFacts.D13.upgrade_crash_safe_refuted).  Single-hop upgrades only (one old schema, one upgrader, as in the "
